@@ -54,7 +54,7 @@ func genC10(t *rapid.T) C10Case {
 	for i := 0; i < ns; i++ {
 		c.Handlers = append(c.Handlers, C10Handler{Kind: rapid.SampledFrom(c10Stream).Draw(t, "skind")})
 	}
-	c.Ending = rapid.SampledFrom([]string{"readfail", "writefail", "stop"}).Draw(t, "ending")
+	c.Ending = rapid.SampledFrom([]string{"readfail", "writefail", "stop", "resetfail"}).Draw(t, "ending")
 	if nu > 8 {
 		// goat runs eight unary handlers per connection; a ninth request waits in the read loop for a free worker (head-of-
 		// line blocking by design), and while it waits the read loop cannot notice a transport failure. The property speaks
@@ -275,6 +275,24 @@ func execC10(t *testing.T, c C10Case) (v Verdict) {
 			for _, h := range l.Held() {
 				h.Release()
 			}
+		case "resetfail":
+			// the response write that fails is that of a reset: a body arrives for a stream id that was never opened, the
+			// server answers with a reset, and the transport refuses exactly that envelope
+			l.A.Delay(nil)
+			for l.ReleaseNext(kit.AtoB) {
+			}
+			kit.Settle()
+			l.B.FailWriteIf(func(r *kit.Rpc) bool { return r.GetReset_() != nil })
+			ob := kit.EnvSpec{Body: &body, Wrap: true}
+			_ = l.A.Write(context.Background(), ob.Build(9100, kit.FullMethod("orphan"), "c0", kit.ServerName))
+			kit.Settle()
+			// (if the connection's writer is parked on a held write the reset is still queued behind it: let everything
+			// through, the reset is the one write that fails)
+			l.B.Hold(nil)
+			for _, h := range l.Held() {
+				h.Release()
+			}
+			kit.Settle()
 		case "stop":
 			w.Server.Stop()
 		case "servectx":
